@@ -137,7 +137,12 @@ func propC13(t *rapid.T) {
 func TestC13(t *testing.T) { rapid.Check(t, propC13) }
 
 // the two extremes named in the property: the empty bitmap and 65536 chunks
-func TestRegressC13Extremes(t *testing.T) {
+func TestRegressC13Extremes(t *testing.T) { extremes(t) }
+func TestRegressC05Extremes(t *testing.T) { extremes(t) }
+func TestRegressC06Extremes(t *testing.T) { extremes(t) }
+
+// extremes: the empty bitmap and 65536 chunks (with run chunks, i.e. the run cookie stores count-1 = 0xFFFF)
+func extremes(t *testing.T) {
 	for _, nchunks := range []int{0, 65536} {
 		b := roaring.New()
 		m := model.New()
